@@ -168,16 +168,16 @@ Definition parse_token (b : bytes) : option (token * nat) :=
              | Some (v, k) => Some ({| t_num := num; t_wt := 0; t_pay := PVarint v; t_raw := firstn k rest |}, (n + k)%nat)
              | None => None
              end
-      | 1 => if Nat.leb 8 (length rest)
+      | 1 => if has_len_z rest 8
              then Some ({| t_num := num; t_wt := 1; t_pay := PFixed64 (le_value (firstn 8 rest)); t_raw := firstn 8 rest |}, (n + 8)%nat)
              else None
-      | 5 => if Nat.leb 4 (length rest)
+      | 5 => if has_len_z rest 4
              then Some ({| t_num := num; t_wt := 5; t_pay := PFixed32 (le_value (firstn 4 rest)); t_raw := firstn 4 rest |}, (n + 4)%nat)
              else None
       | 2 => match spec_parse_varint rest with
              | Some (len, k) =>
                  let body := skipn k rest in
-                 if Z.of_nat (length body) <? len then None
+                 if negb (has_len_z body len) then None
                  else Some ({| t_num := num; t_wt := 2; t_pay := PBytes (firstn (Z.to_nat len) body);
                                t_raw := firstn (k + Z.to_nat len) rest |}, (n + k + Z.to_nat len)%nat)
              | None => None
@@ -247,10 +247,10 @@ Fixpoint unpack (fuel : nat) (k : kind) (b : bytes) : option (list val) :=
                  | Some (v, n) => match unpack f k (skipn n b) with Some l => Some (VInt (spec_conv k v) :: l) | None => None end
                  | None => None
                  end
-          | 5 => if Nat.leb 4 (length b)
+          | 5 => if has_len_z b 4
                  then match unpack f k (skipn 4 b) with Some l => Some (VInt (spec_conv k (le_value (firstn 4 b))) :: l) | None => None end
                  else None
-          | 1 => if Nat.leb 8 (length b)
+          | 1 => if has_len_z b 8
                  then match unpack f k (skipn 8 b) with Some l => Some (VInt (spec_conv k (le_value (firstn 8 b))) :: l) | None => None end
                  else None
           | _ => None
